@@ -257,7 +257,9 @@ func (e *Env) GIdle(g *G) bool {
 	case strings.HasSuffix(f.Fn, "(*FloodSub).Execute"):
 		return g.State == "select" && f.Line == e.IdleLine
 	case strings.HasSuffix(f.Fn, "(*streamHandler).executeSession"):
-		return g.State == "select"
+		// parked in its select, or blocked in a Write that the harness
+		// stalled (Pipe.StallWrites): only the harness can wake it.
+		return g.State == "select" || g.State == "sync.Cond.Wait" && g.Has("g9mesh.(*Pipe).Write")
 	case strings.HasSuffix(f.Fn, "(*streamHandler).readPump"):
 		return g.State == "sync.Cond.Wait" && g.Has("g9mesh.(*Pipe).Read")
 	}
@@ -292,6 +294,35 @@ func (m *Mesh) QuiescentNow() (ok bool, busy string) {
 		return false, "moved during snapshot"
 	}
 	return true, ""
+}
+
+// Backpressured reports whether some goroutine of the mesh is parked in
+// streamHandler.writePacket, i.e. waits for room in a peer's full send queue.
+func (m *Mesh) Backpressured() (bool, string) {
+	for _, g := range m.Env.W.Fresh().Gs {
+		if g.Owner == m.Owner && g.State == "select" && g.Has(fsPkg+"(*streamHandler).writePacket") {
+			return true, g.String()
+		}
+	}
+	return false, ""
+}
+
+// GoroutineParkedOnMutex reports whether goroutine id is parked in
+// sync.Mutex.Lock below a floodsub frame (it waits for a floodsub lock).
+func (m *Mesh) GoroutineParkedOnMutex(id int64) bool {
+	for _, g := range m.Env.W.Fresh().Gs {
+		if g.ID != id || g.State != "sync.Mutex.Lock" {
+			continue
+		}
+		// the caller of the lock operation must be floodsub code
+		for _, f := range g.Frames {
+			if strings.HasPrefix(f.Fn, "sync.") || strings.HasPrefix(f.Fn, "internal/sync.") || strings.HasPrefix(f.Fn, "runtime.") {
+				continue
+			}
+			return strings.Contains(f.Fn, fsPkg)
+		}
+	}
+	return false
 }
 
 // WaitQuiescent polls QuiescentNow; false means the watchdog expired
